@@ -80,7 +80,7 @@ def _count_on_paths(f: Func, pred):
     return walk(g.entry, frozenset())
 
 
-def check(run, P):
+def _check_main(run, P):
     run.rule("C18.stack", "node stack: one push per rec()/__call__, exactly one pop "
              "per handler invocation; library handlers that do not call combine() "
              "are overridden", minimum=10)
@@ -443,3 +443,9 @@ def _table(run, P):
            construct=f"{n_new} calls of new_var_func(); each result is entered with "
                      f"self.assignments[<it>] = ..." + (f" (not in {sorted(set(bad))})" if bad else ""),
            why="a variable that is created and not entered is never assigned")
+
+
+def check(run, P):
+    _check_main(run, P)
+    from . import generic
+    generic.lints(run, P, "C18")
